@@ -277,3 +277,45 @@ def signature(c: int, k: int) -> bool:
                 FAIL.append(f"signatureHelp at {call!r} after {marker!r}: active {r[1]['activeParameter']} expected {want}; labels {labels}; docs {docs}")
     tock("signature")
     return ok
+
+
+# ------------------------------------------------------------------------------------ (S) structural, TRACED
+from fortls.constants import KEYWORD_LIST  # noqa: E402
+from fortls.helper_functions import map_keywords  # noqa: E402
+from fortls.parsers.internal.ast import FortranAST  # noqa: E402
+from fortls.parsers.internal.parser import FortranFile  # noqa: E402
+from fortls.parsers.internal.variable import Variable  # noqa: E402
+
+KW = ["allocatable", "pointer", "target", "save", "optional", "contiguous", "public", "private", "parameter", "external"]
+KWI = ["intent(in)", "intent(out)", "intent(inout)", "dimension(3)", "dimension(:,:)", "dimension(2,n)"]
+
+
+def hover_struct(n: int, k0: int, k1: int, k2: int, i0: int, has_info: bool, has_kind: bool, pval: bool) -> bool:
+    """map_keywords + Variable.get_hover TRACED: any sequence of <=3 attributes (symbolic indices into the keyword
+    tables, optionally one attribute with an argument) on a variable with/without kind and PARAMETER value: the hover
+    is 'TYPE[kind], ATTR..., :: name [= value]' listing exactly those attributes, each once, arguments kept
+    pre: 0 <= n <= (3 if THOROUGH else 2) and 0 <= k0 < len(KW) and 0 <= k1 < len(KW) and 0 <= k2 < len(KW) and 0 <= i0 < len(KWI)
+    pre: k0 != k1 and k1 != k2 and k0 != k2 and (n > 2 or k2 == (0 if k0 != 0 and k1 != 0 else 1 if k0 != 1 and k1 != 1 else 2)) and k0 % NPART == PART
+    post: _
+    """
+    tick("hover_struct")
+    words = [KW[k] for k in [k0, k1, k2][:n]]
+    if has_info:
+        words.insert(n // 2, KWI[i0])
+    keywords, info = map_keywords([w.upper() for w in words])
+    f = FortranFile("/w/a.f90")
+    v = Variable(FortranAST(f), 3, "vx", "REAL", keywords, keyword_info=info, kind="(8)" if has_kind else None)
+    if pval:
+        v.is_const = True
+        v.set_parameter_val("1.5")
+    hover, doc = v.get_hover()
+    left, _, right = hover.partition(" :: ")
+    parts = left.split(", ")
+    want_attrs = sorted(w.upper().replace("INOUT", "INOUT") for w in words)
+    got_attrs = []
+    # re-join pieces split inside parentheses (dimension(2,n) has no blank after the comma, so it stays whole)
+    got_attrs = sorted(parts[1:])
+    ok = parts[0] == ("REAL(8)" if has_kind else "REAL") and got_attrs == want_attrs
+    ok = ok and right == ("vx = 1.5" if pval else "vx") and doc is None
+    tock("hover_struct")
+    return ok
